@@ -30,7 +30,7 @@ func Checks() map[string]*simcore.Check {
 				Stub: []string{"disk: simdisk.SimKV", "wrapper contract that nests the message under N call frames (harness-made bytecode)"},
 			},
 			Perturbed: []string{"goroutine interleaving of 2-8 EVMs sharing caches and sync.Pools (GOMAXPROCS 1/2/4/8/16 per run; checks.json gomaxprocs for the process start value)", "sync.Pool reuse pattern"},
-			Runs:      map[string]int{"quick": 1200, "thorough": 50000},
+			Runs:      map[string]int{"quick": 800, "thorough": 50000},
 			Gen:       gen28, Decode: decode28, Run: run28, Shrink: shrink28,
 			ProbeNames: []string{"flavor-0", "flavor-1", "flavor-2", "depth>100", "unwritten-memory-probes", "concurrent-executions", "ref-ok", "ref-failed"},
 		},
